@@ -37,11 +37,21 @@ func genC13(t *rapid.T) *CaseC13 {
 	z := genIndex(t, "z", 0, m-1)
 	// offset derived from an intended output index so that the first tile is usually in range
 	target := genF(t, "target", c.OutV)
+	// straddle: the first tile is aimed at the bottom or top cell of the output domain (so that, with the +-2 m offset
+	// jitter, its range often leaves the domain: the whole call must fail), and a FINER tile inside its valid part is
+	// listed before it
+	straddle := rapid.IntRange(0, 7).Draw(t, "straddle") == 5
+	if straddle {
+		target = -(int64(1) << uint(c.OutV))
+		if rapid.Bool().Draw(t, "straddleTop") {
+			target = (int64(1) << uint(c.OutV)) - 1
+		}
+	}
 	lo := ref.KeyCell(v, z, c.E, 0).Lo
 	want := ref.SpatialCell(c.OutV, target).Lo
 	d := new(big.Rat).Sub(lo, want)
 	fl := new(big.Int).Div(d.Num(), d.Denom())
-	if fl.IsInt64() && rapid.IntRange(0, 5).Draw(t, "offKind") > 0 {
+	if fl.IsInt64() && (straddle || rapid.IntRange(0, 5).Draw(t, "offKind") > 0) {
 		c.Off = fl.Int64() + rapid.Int64Range(-2, 2).Draw(t, "offDelta")
 	} else {
 		c.Off = rapid.SampledFrom([]int64{0, 1, -1, 7, 8, -2, 1 << 24}).Draw(t, "offConst")
@@ -74,6 +84,17 @@ func genC13(t *rapid.T) *CaseC13 {
 			b.H = nh
 		}
 		c.Tiles = append(c.Tiles, b)
+	}
+	if straddle && v < 35 {
+		d := rapid.Int64Range(1, min64(3, 35-v)).Draw(t, "straddleDepth")
+		inner := first
+		inner.V = v + d
+		if target < 0 {
+			inner.Z = ((z + 1) << uint(d)) - 1 // the top-most descendant: inside the domain when the tile straddles its bottom
+		} else {
+			inner.Z = z << uint(d)
+		}
+		c.Tiles = append([]Tile{inner}, c.Tiles...)
 	}
 	if rapid.IntRange(0, 24).Draw(t, "badZ") == 0 {
 		i := rapid.IntRange(0, len(c.Tiles)-1).Draw(t, "badIdx")
